@@ -8,7 +8,7 @@
 (* ALL subsets of 1..MaxRes as resolution sets x base subsets: predecessor          *)
 (* relation and refusal = derivability.                                           *)
 EXTENDS Coarsen, TLC
-CONSTANTS MaxChroms, MaxLen, MaxK, MaxRes, StoreBins
+CONSTANTS MaxChroms, MaxLen, MaxK, MaxRes, StoreBins, PinnedPred
 
 VARIABLES pc, t, k, px, chunk, rs, bases
 vars == <<pc, t, k, px, chunk, rs, bases>>
@@ -44,8 +44,11 @@ OutputIsBlockAggregate == pc = "store" =>
    /\ StrictlySorted(CoarsenOutput(t, k, px, chunk, <<"sum">>))
    /\ SumSeq([m \in DOMAIN CoarsenBy(t, k, px, <<"sum">>) |-> CoarsenBy(t, k, px, <<"sum">>)[m][3]]) = SumSeq([m \in DOMAIN px |-> px[m][3]])
 ResSeq == SetToSortSeq(rs, <)
+PredUsed(i) == IF PinnedPred THEN PredOfPinned(ResSeq, i) ELSE PredOf(ResSeq, i, bases)
 PredecessorsDivide == pc = "res" =>
-   \A i \in DOMAIN ResSeq : LET p == PredOf(ResSeq, i) IN p # 0 => (p < i /\ ResSeq[i] % ResSeq[p] = 0)
+   \A i \in DOMAIN ResSeq : LET p == PredUsed(i) IN p # 0 => (p < i /\ ResSeq[i] % ResSeq[p] = 0)
+\* C09 "every base level is a faithful copy of its source": a base is never the target of a coarsening step
+BasesAreCopiedNotRederived == pc = "res" => \A i \in DOMAIN ResSeq : ResSeq[i] \in bases => PredUsed(i) = 0
 RefusalIsNonDerivability == pc = "res" =>
    (Refused(ResSeq, bases) = (\E r \in rs : ~Derivable(r, rs, bases)))
 =============================================================================
